@@ -78,7 +78,7 @@ struct OpRec
     // value ledger
     int64_t n_new = 0, n_copy = 0, n_move = 0, n_del = 0, n_use = 0;
     int64_t live_after = 0;
-    int64_t double_del = 0, ctor_over_live = 0, use_twice = 0, use_moved_from = 0, use_dead = 0, copy_in_lib = 0;
+    int64_t double_del = 0, ctor_over_live = 0, use_twice = 0, use_moved_from = 0, use_dead = 0, copy_in_lib = 0, arg_lvalue = 0;
     uint32_t ev_begin = 0, ev_end = 0;
 };
 
@@ -131,6 +131,7 @@ void node_move(const void* addr, uint32_t vid);               // value vid now l
 void node_del(const void* addr, uint32_t vid, bool holds_value);
 void node_use(uint32_t vid, bool moved_from);                 // value handed to a functor as argument
 void node_assign_over(const void* addr, uint32_t old_vid, bool held_value);
+void node_lvalue_arg(uint32_t vid);                           // a functor received the value as an lvalue (cannot be moved from by a by-value parameter)
 
 // allocator control
 void set_alloc_tracking(bool on);
